@@ -607,6 +607,14 @@ func TestVerifC39(t *testing.T) { //nolint:cyclop,gocognit,maintidx
 
 					return
 				}
+				// Let gathering finish before the next SetConfiguration: the statement is about the configuration, and a
+				// SetConfiguration that replaces the ICE servers while the agent is still gathering from them crashed the
+				// process once in pion/ice v4.4.0 (nil URL in gatherCandidatesSrflx; dependency, outside this property).
+				if !rigGatherDone(pc, 5*time.Second) {
+					run.Inconclusive("gathering-watchdog-after-set-local-description")
+
+					return
+				}
 				ops = append(ops, "SetLocalDescription")
 			}
 			if k == closeAt && !closed {
